@@ -84,4 +84,24 @@ theorem c19_engine_cached {Re : Type} (io : IO) (px : E.ParseExt) (lists : List 
   · exact c19_cached _ s (.web q) false idx (.net n) hs rfl hin
       (List.mem_append_right _ (List.mem_map.2 ⟨idx, hc, rfl⟩)) rfl hm'
 
+/-- …and for the hosts table of the DNS engine of the lists: a cached host rule `hr` whose index is in the bucket
+    of the queried name and which names it (`HostRule.Match`) is returned whenever the network rules of the
+    (possibly degraded) answer contain no basic rule (`GetDNSBasicRule` of group C) -- whatever lists are closed. -/
+theorem c19_engine_cached_host {Re : Type} (io : IO) (px : E.ParseExt) (lists : List RList) (pm : PatModel Re)
+    (s : State Rule Re) (hs : SInv (envDns io px lists pm) s) (d : DReq) (hq : d.hostname.isEmpty = false)
+    (idx : Int) (hr : HostRule) (hin : (idx, Rule.host hr) ∈ s.cache)
+    (hcand : idx ∈ hget [] (DnsEngine.build djb2 Facts.shortcutLength (storageRulesI px lists)).hosts (djb2.h d.hostname))
+    (hm : hostRuleMatches hr d.hostname = true)
+    (hb : getDNSBasicRule (netRulesOf (runQuery (envDns io px lists pm) s (.dns d)).2.answer.1) = none) :
+    Rule.host hr ∈ (runQuery (envDns io px lists pm) s (.dns d)).2.answer.2 := by
+  have hname : ((envDns io px lists pm).reqOf (.dns d)).hostname = d.hostname := by
+    simp only [Env.reqOf, fillFromPool, fillRequestForHostname]; split <;> rfl
+  refine c19_cached_host _ s d idx (.host hr) hs hq hin ?_ rfl ?_ ?_
+  · show idx ∈ hget [] _ (djb2.h ((envDns io px lists pm).reqOf (.dns d)).hostname)
+    rw [hname]; exact hcand
+  · show hostRuleMatches hr ((envDns io px lists pm).reqOf (.dns d)).hostname = true
+    rw [hname]; exact hm
+  · show (getDNSBasicRule (netRulesOf _)).isSome = false
+    rw [hb]; rfl
+
 end UF.C19
